@@ -37,7 +37,7 @@ ASSUME = ["the AST dump of the hook prints the six Position fields of the real n
           "columns are byte columns (as the lexer computes them) and lines end at LF only"]
 BATCH = 100
 FLOOR = {"quick": 120, "thorough": 200}
-BUDGET = {"quick": 45, "thorough": 780}
+BUDGET = {"quick": 45, "thorough": 600}
 CLI_PERCENT = 3.0
 SESSION_PERCENT = 4.0
 PATH = "/verif/input.gdn"
@@ -284,9 +284,15 @@ def run_batch(cases):
             want_cli = bool(bad) or F.sampled(src, CLI_PERCENT, "c23")
             cj_bad = []
             if want_cli and (perr or resp.get("diagnostics")):
-                src_d = resp.get("parse_errors") or resp.get("diagnostics") or []
-                expect = [(d["pos"][2] + 1, d["pos"][3] + 1, d["pos"][4], d["pos"][5]) for d in src_d]
-                got, err = check_json(sc, t, src, expect)
+                # `garden check` works on the line-normalised text (LF endings, final newline added); only when
+                # that is the text the hook saw can the two outputs be compared diagnostic by diagnostic
+                norm = F.cli_normalize(src)
+                if norm == src:
+                    src_d = resp.get("parse_errors") or resp.get("diagnostics") or []
+                    expect = [(d["pos"][2] + 1, d["pos"][3] + 1, d["pos"][4], d["pos"][5]) for d in src_d]
+                    got, err = check_json(sc, t, src, expect)
+                else:
+                    got, err = check_json(sc, P.Text(norm), src, None)
                 if got is not None:
                     n, cj_bad = got
                     if n:
